@@ -466,6 +466,21 @@ func (g *Gen) genFamily(fam string) (Op, bool) {
 			return Op{Name: "I", S: []string{"float64", "int", "float32"}[r.Intn(3)], I: []int{1 + r.Intn(4), 1 + r.Intn(4), r.Intn(3) - 1}, Out: g.newSlot()}, true
 		case 2:
 			return Op{Name: "NewOpt", N: r.Intn(4), Out: g.newSlot()}, true
+		case 3:
+			if r.Intn(2) == 0 {
+				return Op{Name: "DenseDiag", S: []string{"float64", "int", "float32"}[r.Intn(3)], N: 1 + r.Intn(4), F: float64(r.Intn(900)), Out: g.newSlot()}, true
+			}
+			// a sparse matrix from coordinate lists, made dense
+			rows, cols := 1+r.Intn(4), 1+r.Intn(4)
+			n := 1 + r.Intn(5)
+			I := []int{rows, cols, n}
+			for i := 0; i < n; i++ {
+				I = append(I, r.Intn(rows))
+			}
+			for i := 0; i < n; i++ {
+				I = append(I, r.Intn(cols))
+			}
+			return Op{Name: "CSRDense", S: []string{"float64", "int", "float32"}[r.Intn(3)], I: I, N: r.Intn(2), F: float64(r.Intn(900)), Out: g.newSlot()}, true
 		}
 		return g.opNew(g.pickDt(), g.pickShape(4)), true
 
@@ -977,6 +992,23 @@ func (g *Gen) genFamily(fam string) (Op, bool) {
 		case 4:
 			return Op{Name: "ResetMask", In: []int{a}, N: r.Intn(2), Out: -1}, true
 		case 5:
+			switch r.Intn(4) {
+			case 0:
+				// (a raw index into the mask window, like Set(i, x) into the data: not for views with gaps)
+				if !gappyView(t) {
+					return Op{Name: "SetMaskAtIndex", In: []int{a}, N: r.Intn(t.Shape().TotalSize() + 1), F: float64(r.Intn(2)), Out: -1}, true
+				}
+			case 1:
+				n := t.Shape().TotalSize()
+				if n > 64 {
+					n = 64
+				}
+				flags := make([]int, n)
+				for i := range flags {
+					flags[i] = r.Intn(2)
+				}
+				return Op{Name: "MaskFromSlice", In: []int{a}, I: flags, Out: -1}, true
+			}
 			return Op{Name: []string{"HardenMask", "SoftenMask"}[r.Intn(2)], In: []int{a}, Out: -1}, true
 		case 6:
 			if r.Intn(2) == 0 {
@@ -1305,6 +1337,12 @@ func (g *Gen) genProduct() (Op, bool) {
 			a := g.pick(and(fl, dimsIs(2)))
 			if a < 0 {
 				return Op{}, false
+			}
+			if r.Intn(3) == 0 {
+				if s := g.pick(and(isDt(floatDts...), dimsIs(2), smallInts)); s >= 0 {
+					// singular values are compared between the two worlds of one process: same code, same input
+					return Op{Name: "SVD", In: []int{s}, N: r.Intn(4), Out: g.newSlot()}, true
+				}
 			}
 			return Op{Name: "Trace", In: []int{a}, Out: -1}, true
 		}
